@@ -144,3 +144,19 @@ def kern_set(tier, split=False):
             if tier == 'thorough':
                 o += [kern_obl(2, order=2, split=1, maxin=2, engine=e), kern_obl(2, order=1, split=1, hiprec=1, maxin=2, engine=e), kern_obl(4, fixed=1, split=1, maxin=2, engine=e)]
     return o
+
+
+def qspec_obl():
+    return Obl(name='quality_spec_recipes', src='qspec.c', unwind=3, timeout=300,
+               desc='soxr_quality_spec for every recipe / flags word: phase bits change phase_response only; precision, pass-band, roll-off per quality',
+               bounds='all 2^64 recipe words x flags < 2^31; lsx_inv_f_resp stubbed to the constant 0.42',
+               stubs=['lsx_inv_f_resp returns the constant 0.42 and log10(2) its value (libm-based curve fit, not encodable)'], funcs=['soxr.c:soxr_quality_spec'])
+
+
+def coefs_obl(order, core, mult='4.0', onehot=1000, nc=3, np=2, timeout=400, tiers=('quick', 'thorough')):
+    return Obl(name='polycoefs_gain_o%d_core%d_m%s_v%d' % (order, core, mult.replace('.', 'p'), onehot), src='coefs_prep.c',
+               defs=['-DVF_ORDER=%d' % order, '-DVF_CORE=%d' % core, '-DVF_MULT=%s' % mult, '-DVF_ONEHOT=%d' % onehot, '-DVF_NC=%d' % nc, '-DVF_NP=%d' % np],
+               unwind=40, timeout=timeout, ndebug=False, tiers=tiers,
+               desc='prepare_poly_fir_coefs (cr.c): table(gain m) == m * table(gain 1) entry by entry, interpolation order %d, core layout %d' % (order, core),
+               bounds='%d taps x %d phases; basis input: one tap at a symbolic position with a symbolic integer value in +-%d, others 0 (the table is linear in the taps); gain %s' % (nc, np, onehot, mult),
+               stubs=['table storage from a static pool (mem->calloc)'], funcs=['cr.c:prepare_poly_fir_coefs'])
